@@ -309,6 +309,13 @@ func cmdReplay(args []string) int {
 		return 2
 	}
 	run := rf.Runs[0]
+	if run.Property == "C09" {
+		if _, err := prepareC09(); err != nil {
+			fmt.Println("ERROR", err)
+			return 2
+		}
+	}
+	currentTier = run.Tier
 	res, text, err := runNative(run.Packages, run.PkgDir, []replayRun{run}, 120*time.Second)
 	if err != nil {
 		fmt.Println("ERROR", err)
